@@ -288,13 +288,15 @@ func RunC07(st *simcore.Stream, tier, leg string, logOn bool, res *simcore.Resul
 				from = r.Start
 			}
 			recovered := r.Returned && r.Err == nil && r.End <= from+T.Reject+T.KeepAlive+bound
+			recovered2 := r.Returned && r.Err == nil && r.End <= from+2*(T.Reject+T.KeepAlive)+bound
 			res.Violate(overdueStep[r], "send-stuck-after-heal", "Send on %s (pending since t=%v) had not returned %d handshake intervals of %v after the transport became reliable at t=%v (returned=%v at t=%v)", r.Side.Name, r.Start, LivenessIntervals, T.Backoff, healAt, r.Returned, r.End).
 				With("leg", leg).With("side", r.Side.Name).
 				With("peerRestarted", restarted).
 				With("survivorKeepsRetransmittingAnUnfinishedHandshake", survivorStuckInOldHandshake()).
 				With("aResponderKeepsAnsweringAHandshakeThePeerGaveUp", responderAnswersAbandonedHandshake()).
 				With("sendOnRestartedSide", restartedSide != nil && r.Side == restartedSide && r.Gen == r.Side.Gen).
-				With("recoveredOnceOldSessionsExpired", recovered)
+				With("recoveredOnceOldSessionsExpired", recovered).
+				With("recoveredWithinTwoExpiryRounds", recovered2)
 		}
 		w.FinalWire()
 		w.Finished = true
